@@ -796,3 +796,41 @@ def flagflow(g, gen, kill, check, edge_kill=None):
                     inq.add(dst)
                     work.append(dst)
     return list(hits.values())
+
+
+def setflow(g, transfer, check):
+    """May-dataflow of a set of items over the product graph `g`, element granular.
+
+    transfer(block, idx, elem, states_before, cur: frozenset) -> frozenset
+    check(block, idx, elem, states_before, cur) -> list of findings (any objects)
+    Returns all findings (deduplicated by repr)."""
+    fn = g.fn
+    val_in = {n: frozenset() for n in g.nodes}
+    work = deque(g.nodes)
+    inq = set(g.nodes)
+    findings = {}
+    while work:
+        node = work.popleft()
+        inq.discard(node)
+        bid, s = node
+        b = fn.blocks[bid]
+        cur = val_in[node]
+        states = [s]
+        for i, e in enumerate(b.elems):
+            if e is None:
+                continue
+            for f in check(b, i, e, states, cur) or ():
+                findings.setdefault(repr(f), f)
+            cur = transfer(b, i, e, states, cur)
+            states = g.transfer_elem(e, states)
+        for (dst, label) in g.succ.get(node, ()):
+            if label == "resume":
+                continue
+            old = val_in.get(dst, frozenset())
+            new = old | cur
+            if new != old:
+                val_in[dst] = new
+                if dst not in inq:
+                    inq.add(dst)
+                    work.append(dst)
+    return list(findings.values())
